@@ -25,6 +25,7 @@ type Env struct {
 	clause *Clause
 	header *ssa.BasicBlock // loop header for $i
 	depth  int
+	lets   map[string]*Clause
 }
 
 type evalErr struct{ msg string }
@@ -282,6 +283,14 @@ func (env *Env) ident(name string) Val {
 	}
 	if v, ok := env.vars[name]; ok {
 		return v
+	}
+	if c, ok := env.lets[name]; ok {
+		if env.depth > 30 {
+			env.fail("let recursion")
+		}
+		n := *env
+		n.depth = env.depth + 1
+		return n.eval(c.Expr)
 	}
 	if env.frame != nil {
 		if v, ok := env.frame.params[name]; ok {
